@@ -189,10 +189,18 @@ def arena_bounds(ck, F, prefix='C03'):
              f'(for every n: floor((n+c1)/d) >= (n+c1-(d-1))/d)', loc=af['loc'], fn=af['id'], detail={'c1': c1, 'd': d, 'c2': c2})
     guards = [(x, y, strict) for x, y, strict in le_facts(st0.conds) if x == mterm]
     okrem, txt = False, 'no test of the granule count against the remaining count'
+    def end_of_storage(t):
+        # `storage + K` or `&storage[K]`: the offset K, when the base is the storage of a pool
+        while isinstance(t, tuple) and t and t[0] == 'castto':
+            t = t[2]
+        if isinstance(t, tuple) and t[:1] == ('op',) and len(t) == 4 and t[1] == '+':
+            return linear(t[3], N)
+        if isinstance(t, tuple) and t[:1] == ('addr',) and isinstance(t[1], tuple) and t[1][:1] == ('index',):
+            return linear(t[1][2], N)
+        return None
     for x, rem, strict in guards:
         txt = contracts.render(rem, st0, {})
-        okrem = okrem or (rem[0] == 'op' and rem[1] == '-' and rem[3] == NH and F_STORAGE in txt and
-                          (linear(rem[2][3], N) == (0, bufsz) if rem[2][0] == 'op' else False))
+        okrem = okrem or (rem[0] == 'op' and rem[1] == '-' and rem[3] == NH and F_STORAGE in txt and end_of_storage(rem[2]) == (0, bufsz))
     ck.check(R3, 'in-pool', okrem and v0 == NH,
              f'in-pool path: the granule count is bounded by {txt}; returns {contracts.render(v0, st0, {})}', loc=af['loc'], fn=af['id'])
     seen = {'in-pool'}
